@@ -69,6 +69,13 @@ def knotSpans (b : Basis K) (tol : K) (ghost : Bool) : List K :=
     let stop := if p = 1 then 0 else n - p + 1
     spansLoop tol ((b.knots.toList.drop (p - 1)).take (stop - (p - 1))) [b.kn (p - 1)]
 
+/-- `numpy.allclose(a, b, rtol, atol)` for two flat arrays of equal length (as used on control
+    nets by `Orientation.compute`, with `rtol/atol = state.controlpoint_*_tolerance`, and on
+    normalised knot vectors by `BSplineBasis.matches`): `|a − b| ≤ atol + rtol·|b|` entry-wise. -/
+def allclose (rtol atol : K) (a b : List K) : Bool :=
+  decide (a.length = b.length) &&
+    (List.zip a b).all (fun p => decide (|p.1 - p.2| ≤ atol + rtol * |p.2|))
+
 end Tol
 
 /-! ## VertexDict -/
